@@ -35,6 +35,7 @@ def run(chk):
 
     chk.attempt("O1", lambda: builtin_forms(chk, P))
     chk.attempt("O2", lambda: combinators(chk, P))
+    chk.attempt("O2p", lambda: combinators_all_presences(chk, P))
     chk.attempt("G", lambda: W.gradient_obligations(chk, P, rule="C07.G"))
     chk.attempt("O4", lambda: trans(chk, P))
     chk.attempt("O5", lambda: multirange(chk, P))
@@ -120,6 +121,49 @@ def combinators(chk, P):
         d1 = K.num(K.call(K.getattr(pot, "deriv"), [r], {}))
         dcheck(chk, "C07.O2a", "%s(a,b) with only a analytic: deriv = D value (b differentiated by the per-component fallback)" % name,
                v, d1, fi.site(), "C07.O2a|%s|mixed" % name)
+
+
+def combinators_all_presences(chk, P):
+    """every combination of which operand offers deriv / deriv2: whatever the combinator then offers is the derivative of what
+    it returns (operands without an analytic derivative are differentiated by gradient(), whose meaning is d/dr)"""
+    import itertools
+    m = "atsim.potentials"
+    r = Num(ep.sym("r"))
+    a, b = W.param("a"), W.param("b")
+    for name in ("plus", "product", "pow"):
+        fi = P.func(m, name)
+        bad = []
+        n = 0
+        for combo in itertools.product((True, False), repeat=4):
+            have = {("a", "deriv"): combo[0], ("a", "deriv2"): combo[1], ("b", "deriv"): combo[2], ("b", "deriv2"): combo[3]}
+
+            def answer(cond, have=have):
+                if isinstance(cond, Cond) and cond.kind == "hasattr" and isinstance(cond.args[0], Opaque) and isinstance(cond.args[1], Const):
+                    pth = cond.args[0].path
+                    if pth in (("param", "a"), ("param", "b")):
+                        return have.get((pth[1], cond.args[1].v))
+                return None
+            answer.text = "operands offer deriv/deriv2 in every combination"
+            K = F.make_interp(P)
+            K.assumption_fns.append(answer)
+            pot = K.run(fi, [a, b])
+            v = K.num(K.call(pot, [r], {}))
+            prev = v
+            for meth in ("deriv", "deriv2"):
+                h = K.hasattr(pot, meth)
+                if h is not True:
+                    if h is not False:
+                        bad.append("%s: presence of %s undecided (%r)" % (have, meth, h))
+                    break
+                d = K.num(K.call(K.getattr(pot, meth), [r], {}))
+                n += 1
+                ok, why = ep.equal(d, ep.D(prev, "r"))
+                if not ok:
+                    bad.append("a:%s/%s b:%s/%s  %s is not d/dr of the previous order (%s)" % (combo[0], combo[1], combo[2], combo[3], meth, why))
+                prev = d
+        chk.ob("C07.O2a", "%s(a,b): in all 16 combinations of operands offering deriv/deriv2, every derivative offered (%d in total) is "
+                          "d/dr of the order below" % (name, n), not bad and n >= 12, site=fi.site(), found="; ".join(bad[:3]) if bad else n,
+               expect="all identities hold", key="C07.O2a|%s|all-presences" % name)
 
 
 def _or_of(c):
